@@ -32,7 +32,7 @@ HOSTILE = ["</script>", "</SCRIPT>", "</ScRiPt ", "</script\n", "<!--", "<\\/scr
 VERSIONS = ["1.0-1", "v2.1", "01.02", "1.0.0RC1", "1!2.0+u.1", "1.0.post1", "2.0.0.0", "1.0a1"]
 FIELDS = ["name", "source.href", "source.subdir", "script.src", "script.type", "stylesheet.href",
           "stylesheet.title", "meta.name", "meta.content", "head.str", "head.script", "head.text",
-          "nosource.script.src", "nosource.stylesheet.href", "head.padded", "source.package-none", "script.value-none"]
+          "nosource.script.src", "nosource.stylesheet.href", "head.padded", "source.package-none", "script.value-none", "stylesheet.rel"]
 INDENTS = [None, 0, 2]
 PLACEHOLDER = "<meta name=\"deps-go-here\">"
 
@@ -68,6 +68,8 @@ def put(info, field, s):
     elif field == "nosource.stylesheet.href":
         info["source"] = None
         info["stylesheet"] = [{"href": "a%b " + s + ".css"}]
+    elif field == "stylesheet.rel":
+        info["stylesheet"] = [{"href": "a.css", "rel": "alternate " + s}, {"href": "b.css"}]
     elif field == "source.package-none":
         info["source"] = {"package": None, "subdir": "lib/" + s}
     elif field == "script.value-none":
